@@ -27,7 +27,7 @@ ASSUMPTIONS = ["a renderable error's own code and message are its class/instance
                "'bare 5.00' is taken to mean code 5.00 with an empty payload"]
 EXPECTED_PROBES = ["renderable_error", "generic_exception", "wrong_return_type", "failing_renderer", "slow_failure",
                    "default_code", "not_found", "method_not_allowed", "not_a_server", "concurrent_neighbours", "gc_while_handler_waits", "non_renderable_with_to_message", "request_over_tcp",
-                   "observation_declined", "crowd_of_pending_requests", "crowd_above_64"]
+                   "observation_declined", "crowd_of_pending_requests", "crowd_above_64", "handler_on_instance"]
 
 SECRET = "SECRET-9f3a-MARKER"
 METHODS = {"GET": 1, "POST": 2, "PUT": 3, "DELETE": 4, "FETCH": 5, "PATCH": 6, "IPATCH": 7}
@@ -39,7 +39,11 @@ RENDERABLE = ['BadGateway', 'BadOption', 'BadRequest', 'Conflict', 'Construction
 RET_CODES = [rc.CONTENT, rc.CREATED, rc.CHANGED, rc.DELETED, rc.VALID, rc.BAD_REQUEST, rc.code(5, 3), rc.code(4, 29)]
 KINDS = ["ret_code", "ret_nocode", "raise_renderable", "raise_renderable_text", "raise_generic", "ret_none", "ret_str",
          "ret_int", "ret_tuple", "renderer_raises", "renderer_none", "missing", "get_only", "ret_unserializable",
-         "raw_render_nonmessage", "wait_weak", "raise_wrapping", "raise_ducky", "obs_decline_ret", "obs_decline_raise"]
+         "raw_render_nonmessage", "wait_weak", "raise_wrapping", "raise_ducky", "obs_decline_ret", "obs_decline_raise",
+         "inst_put_w", "inst_put_r", "removed_post", "getattr_any"]
+
+
+FIXED_METHOD = {"inst_put_w": "PUT", "inst_put_r": "PUT", "removed_post": "POST"}
 
 
 def gen_req(r, i):
@@ -47,9 +51,15 @@ def gen_req(r, i):
                        (3, "raise_generic"), (1, "ret_none"), (1, "ret_str"), (1, "ret_int"), (1, "ret_tuple"),
                        (2, "renderer_raises"), (1, "renderer_none"), (2, "missing"), (2, "get_only"),
                        (2, "ret_unserializable"), (1, "raw_render_nonmessage"), (2, "wait_weak"),
-                       (2, "raise_wrapping"), (1, "raise_ducky"), (1, "obs_decline_ret"), (2, "obs_decline_raise")])
+                       (2, "raise_wrapping"), (1, "raise_ducky"), (1, "obs_decline_ret"), (2, "obs_decline_raise"),
+                       (1, "inst_put_w"), (1, "inst_put_r"), (1, "removed_post"), (1, "getattr_any")])
     q = {"id": i, "kind": kind, "method": r.choice(list(METHODS)), "con": r.chance(0.7), "slow": r.chance(0.35),
          "client": 0}
+    if kind in ("inst_put_w", "inst_put_r"):
+        # handlers that differ between two instances of one class: the writable instance got a PUT handler attached
+        q["method"] = "PUT"
+    if kind == "removed_post":
+        q["method"] = "POST"  # the class has a POST handler, this instance switched it off (render_post = None)
     if kind.startswith("obs_decline"):
         # a request asking to observe (Observe: 0) a resource that can be observed in principle but turns this
         # particular request down (does not accept the observation) and answers / fails like any other handler
@@ -114,6 +124,10 @@ def systematic(tier):
             for method in (METHODS if tier == "thorough" else ("GET", "POST", "DELETE", "IPATCH")):
                 if kind.startswith("obs_decline") and method not in ("GET", "FETCH"):
                     continue
+                if kind in FIXED_METHOD:
+                    if method != "GET":
+                        continue
+                    method = FIXED_METHOD[kind]
                 for con in (True, False):
                     for slow in (False, True):
                         if tier == "quick" and slow and (i % 3):
@@ -357,6 +371,48 @@ def execute(sim, scn):
                 await fut
             return Message(payload=b"parked")
 
+    class PerInstance(resource.Resource):
+        def __init__(self, writable):
+            super().__init__()
+            if writable:
+                self.render_put = self._put
+
+        async def render_get(self, request):
+            return Message(payload=b"state")
+
+        async def _put(self, request):
+            rid = int(request.opt.uri_query[0][2:])
+            invocations.append((loop.now, rid))
+            if specs[rid]["slow"]:
+                await asyncio.sleep(0.3)
+            return Message(payload=b"P%d" % rid)
+
+    class Removed(resource.Resource):
+        def __init__(self):
+            super().__init__()
+            self.render_post = None
+
+        async def render_get(self, request):
+            return Message(payload=b"state")
+
+        async def render_post(self, request):
+            return Message(payload=b"must not run")
+
+    class Forwarding(resource.Resource):
+        """supplies its handlers dynamically"""
+
+        def __getattr__(self, name):
+            if name.startswith("render_"):
+                return self._any
+            raise AttributeError(name)
+
+        async def _any(self, request):
+            rid = int(request.opt.uri_query[0][2:])
+            invocations.append((loop.now, rid))
+            if specs[rid]["slow"]:
+                await asyncio.sleep(0.3)
+            return Message(payload=b"P%d" % rid)
+
     class GetOnly(resource.Resource):
         async def render_get(self, request):
             rid = int(request.opt.uri_query[0][2:])
@@ -371,6 +427,10 @@ def execute(sim, scn):
         site.add_resource(["getonly"], GetOnly())
         site.add_resource(["raw"], RawRender())
         site.add_resource(["declining"], Declining())
+        site.add_resource(["inst_w"], PerInstance(True))
+        site.add_resource(["inst_r"], PerInstance(False))
+        site.add_resource(["removed"], Removed())
+        site.add_resource(["forwarding"], Forwarding())
         site.add_resource(["park"], Park())
         if not any(q.get("tcp") for q in scn["reqs"]):
             return await sim.server(None if scn.get("nosite") else site, common.SERVER_IP)
@@ -420,7 +480,8 @@ def execute(sim, scn):
         token = bytes([0xD0, q["id"]])
         tokens[q["id"]] = (cl.addr, token)
         path = {"missing": b"nowhere", "get_only": b"getonly", "raw_render_nonmessage": b"raw", "obs_decline_ret": b"declining",
-                "obs_decline_raise": b"declining"}.get(q["kind"], b"zoo")
+                "obs_decline_raise": b"declining", "inst_put_w": b"inst_w", "inst_put_r": b"inst_r", "removed_post": b"removed",
+                "getattr_any": b"forwarding"}.get(q["kind"], b"zoo")
         m = {"type": rc.CON if q["con"] else rc.NON, "code": METHODS[q["method"]], "mid": 0x100 + q["id"],
              "token": token, "options": ([(rc.OBSERVE, b"")] if q["kind"].startswith("obs_decline") else []) +
              [(rc.URI_PATH, path), (rc.URI_QUERY, b"r=%d" % q["id"])], "payload": b""}
@@ -551,6 +612,13 @@ def execute(sim, scn):
                 exp_code = rc.METHOD_NOT_ALLOWED
         elif k == "ret_code":
             exp_code, exp_payload = q["code"], b"P%d" % q["id"]
+        elif k in ("inst_put_w", "getattr_any"):
+            sim.probe("handler_on_instance")
+            exp_code = {"GET": rc.CONTENT, "FETCH": rc.CONTENT, "DELETE": rc.DELETED}.get(q["method"], rc.CHANGED)
+            exp_payload = b"P%d" % q["id"]
+        elif k in ("inst_put_r", "removed_post"):
+            sim.probe("method_not_allowed")
+            exp_code = rc.METHOD_NOT_ALLOWED
         elif k == "obs_decline_ret":
             exp_code, exp_payload = rc.CONTENT, b"P%d" % q["id"]
         elif k == "obs_decline_raise":
